@@ -22,6 +22,85 @@ def rows_path(facts, raw_path, **kw):
     return b, g, paths.rows(g, max_paths=40000, **kw)
 
 
+FOLDS = ("core::num::to_ascii_uppercase", "core::num::to_ascii_lowercase")
+
+
+def _origin(e):
+    """The parameter whose string a byte / byte-slice / iterator expression is taken from: looks through as_bytes, iter,
+    into_iter, borrows, and the k-th component of an item of `zip(a, b)` (component k comes from argument k)."""
+    e = ir.peel(e)
+    if e[0] == 'param':
+        return e[2]
+    if e[0] == 'field':
+        inner = ir.peel(e[1])
+        # (next(zip(a, b)) as Some).0.k
+        if inner[0] == 'field' and str(inner[2]) == '0' and ir.peel(inner[1])[0] == 'variant' and str(e[2]) in ('0', '1'):
+            nx = ir.peel(ir.peel(inner[1])[1])
+            if nx[0] == 'call' and nx[1].endswith("::next") and nx[2]:
+                z = ir.peel(nx[2][0])
+                while z[0] == 'call' and z[1].endswith("into_iter") and z[2]:
+                    z = ir.peel(z[2][0])
+                if z[0] == 'call' and z[1].endswith("::zip") and len(z[2]) == 2:
+                    return _origin(z[2][int(str(e[2]))])
+            return None
+        return _origin(e[1])
+    if e[0] == 'call' and e[2] and (e[1].endswith("::as_bytes") or e[1].endswith("::iter") or e[1].endswith("into_iter")
+                                     or e[1].endswith("::bytes") or e[1].endswith("::as_ref") or e[1].endswith("::as_str") or ir.is_transparent(e[1])):
+        return _origin(e[2][0])
+    return None
+
+
+def _cmp_loop_form(rows):
+    """The hand-written form of a case-folded lexicographic comparison: walk `zip(self bytes, other bytes)`, compare the two
+    bytes after the same ASCII case fold (self's first), leave the loop with that result only when it is not Equal, and
+    break the tie of a common prefix by comparing the lengths (self's first)."""
+    n_byte = n_tail = 0
+    for r in rows:
+        bytecmps = []
+        for (e, lab, n) in r.conds:
+            pe = ir.peel(e)
+            if pe[0] == 'discr':
+                x = ir.peel(pe[1])
+                if x[0] == 'call' and x[1].endswith("::cmp") and len(x[2]) == 2 and all(ir.peel(a)[0] == 'call' and ir.peel(a)[1] in FOLDS for a in x[2]):
+                    bytecmps.append((x, lab))
+        is_byte_ret = False
+        if r.end == 'return':
+            if r.ret is None:
+                return "a path returns an unresolved value"
+            x = ir.peel(r.ret)
+            if not (x[0] == 'call' and x[1].endswith("::cmp") and len(x[2]) == 2):
+                return "a path returns %s" % ir.show(x)[:80]
+            a, b = ir.peel(x[2][0]), ir.peel(x[2][1])
+            if a[0] == 'call' and a[1] in FOLDS:
+                if not (b[0] == 'call' and b[1] == a[1]):
+                    return "the two bytes are not folded by the same function"
+                if (_origin(a[2][0]), _origin(b[2][0])) != ('self', 'other'):
+                    return "the folded bytes compared are not self's against other's"
+                if not bytecmps or bytecmps[-1][0] != x or not (bytecmps[-1][1][0] == 'otherwise' and 0 in bytecmps[-1][1][1] or
+                                                               (bytecmps[-1][1][0] == 'case' and bytecmps[-1][1][1] != 0)):
+                    return "a byte comparison result is returned without testing that it is not Equal"
+                is_byte_ret = True
+                n_byte += 1
+            elif a[0] == 'call' and a[1].endswith("::len") and b[0] == 'call' and b[1].endswith("::len"):
+                if (_origin(a[2][0]), _origin(b[2][0])) != ('self', 'other'):
+                    return "the length tie-break does not compare self's length with other's"
+                n_tail += 1
+            else:
+                return "a path returns %s" % ir.show(x)[:80]
+        # the walk continues only past Equal bytes
+        cont = bytecmps[:-1] if is_byte_ret else bytecmps
+        for (x, lab) in cont:
+            if lab != ('case', 0):
+                return "the loop continues after a byte comparison that is not Equal"
+        for (x, lab) in bytecmps:
+            a, b = ir.peel(x[2][0]), ir.peel(x[2][1])
+            if a[1] != b[1] or (_origin(a[2][0]), _origin(b[2][0])) != ('self', 'other'):
+                return "a byte comparison does not fold self's and other's byte alike"
+    if not n_byte or not n_tail:
+        return "no folded byte comparison / length tie-break found"
+    return None
+
+
 def is_as_var(e, who):
     e = ir.peel(e)
     return e[0] == 'call' and e[1] in (OWN + "::as_var", "<cgi::OwnedVarName as std::borrow::Borrow>::borrow") and ir.peel(e[2][0])[0] == 'param' and ir.peel(e[2][0])[2] == who
@@ -136,7 +215,17 @@ def run(rep, facts):
                     who = [ir.peel(y[1])[2] for y in ir.walk(a) if y[0] == 'field' and ir.peel(y[1])[0] == 'param']
                     sides.append((bool(m), bool(f_), tuple(who)))
                 ok = all(s[0] and s[1] for s in sides) and {s[2] for s in sides} == {('self',), ('other',)}
-    (rep.ok if ok else rep.violation)("R19.3", "varname-cmp", "bytes().map(to_ascii_uppercase) on both sides, then lexicographic cmp" if ok else "VarName::cmp does not fold both sides with to_ascii_uppercase", b.loc())
+    why = "VarName::cmp does not fold both sides with to_ascii_uppercase"
+    form = "bytes().map(to_ascii_uppercase) on both sides, then lexicographic cmp"
+    if not ok:
+        b, g, rows2 = rows_path(facts, "<cgi::VarName as std::cmp::Ord>::cmp", max_visits=2)
+        err = _cmp_loop_form(rows2)
+        if err is None:
+            ok = True
+            form = "explicit loop over zip(self bytes, other bytes): same ASCII fold on both bytes, leaves on the first unequal pair, ties broken by length"
+        elif any(r.end == 'loop' for r in rows2):
+            why += "; as an explicit loop: " + err
+    (rep.ok if ok else rep.violation)("R19.3", "varname-cmp", form if ok else why, b.loc())
     # hash: taint rule
     b, g, rows = rows_path(facts, "<cgi::VarName as std::hash::Hash>::hash", max_visits=3)
     nw = 0
